@@ -18,15 +18,15 @@
 #pragma CPROVER check disable "signed-overflow"
 #pragma CPROVER check disable "unsigned-overflow"
 #pragma CPROVER check disable "pointer-primitive"
-static t_char s_pool[STRBLOCKS][STRCAP]; static t_int s_blocks;
+static t_char s_pool[STRBLOCKS][STRCAP]; static int s_blocks;
 static t_char *s_new(void) { __CPROVER_assert(s_blocks < STRBLOCKS, "string pool has a block left"); t_char *p = s_pool[s_blocks < STRBLOCKS ? s_blocks : 0]; s_blocks++; p[0] = 0; return p; }
 static void s_putc(struct osmt_string *s, t_char c) { __CPROVER_assert(s->n + 1 < STRCAP, "string within the block size of the bounded model"); if (s->n + 1 < STRCAP) { s->p[s->n] = c; s->n++; s->p[s->n] = 0; } }
-static void s_puts(struct osmt_string *s, const t_char *t) { for (t_int i = 0; i < STRCAP; i++) { if (t[i] == 0) break; s_putc(s, t[i]); } }
-static void s_putn(struct osmt_string *s, const t_char *t, t_ulong n) { for (t_ulong i = 0; i < STRCAP; i++) { if (i >= n) break; s_putc(s, t[i]); } }
+static void s_puts(struct osmt_string *s, const t_char *t) { for (int i = 0; i < STRCAP; i++) { if (t[i] == 0) break; s_putc(s, t[i]); } }
+static void s_putn(struct osmt_string *s, const t_char *t, t_ulong n) { for (unsigned long i = 0; i < STRCAP; i++) { if (i >= n) break; s_putc(s, t[i]); } }
 static void s_putu(struct osmt_string *s, unsigned long long v) {   /* decimal digits of v */
-  t_char d[20]; t_int k = 0; if (v == 0) { s_putc(s, '0'); return; }
-  for (t_int i = 0; i < 20; i++) { if (v == 0) break; d[k++] = (t_char)('0' + (t_int)(v % 10)); v /= 10; }
-  for (t_int i = 0; i < 20; i++) { if (k == 0) break; k--; s_putc(s, d[k]); } }
+  t_char d[20]; int k = 0; if (v == 0) { s_putc(s, '0'); return; }
+  for (int i = 0; i < 20; i++) { if (v == 0) break; d[k++] = (t_char)('0' + (int)(v % 10)); v /= 10; }
+  for (int i = 0; i < 20; i++) { if (k == 0) break; k--; s_putc(s, d[k]); } }
 static void s_puti(struct osmt_string *s, long long v) { if (v < 0) { s_putc(s, '-'); s_putu(s, (unsigned long long)(-(v + 1)) + 1ull); } else s_putu(s, (unsigned long long)v); }
 static struct osmt_string s_empty(void) { struct osmt_string s; s.p = s_new(); s.n = 0; return s; }
 static struct osmt_string s_copy(const struct osmt_string *o) { struct osmt_string s = s_empty(); s_putn(&s, o->p, o->n); return s; }
